@@ -11,7 +11,7 @@ func one(e ...core.Engine) func() []core.Engine { return func() []core.Engine { 
 var (
 	profC01 = sim.Profile{Name: "c01", Steps: 160, CanaryProb: 0.5, Hostile: 3, Churn: 3, Edits: 1.5, Holds: 0.3, Commands: 0.3, DupPods: 4, Affinity: -1, MaxNodes: 8, Converge: false}
 	profC04 = sim.Profile{Name: "c04", CanarySteady: true, Converge: true, Steps: 140, CanaryProb: 1, Hostile: 1, Churn: 2, Edits: 2.5, Holds: 0.8, Commands: 1.5, DupPods: 0.5, Affinity: -1, MaxNodes: 8}
-	profC07 = sim.Profile{Name: "c07", EDSFaults: 0.2, Steps: 110, CanaryProb: 1, Hostile: 3, Churn: 0.7, Edits: 1.5, Holds: 0.5, Commands: 2, DupPods: 0.2, Affinity: -1, MaxNodes: 6, Converge: true, Retention: true}
+	profC07 = sim.Profile{Name: "c07", Widen: 0.3, EDSFaults: 0.2, Steps: 110, CanaryProb: 1, Hostile: 3, Churn: 0.7, Edits: 1.5, Holds: 0.5, Commands: 2, DupPods: 0.2, Affinity: -1, MaxNodes: 6, Converge: true, Retention: true}
 	profC08 = sim.Profile{Name: "c08", Steps: 120, CanaryProb: 0.5, Hostile: 1, Churn: 3, Edits: 1.5, Holds: 4, Commands: 3, DupPods: 0.3, Affinity: -1, MaxNodes: 7, Converge: true}
 	profC12 = sim.Profile{Name: "c12", Steps: 160, CanaryProb: 0.5, Hostile: 1, Churn: 1, Edits: 2, Holds: 0.5, Commands: 0.7, DupPods: 1, Affinity: -1, MaxNodes: 5, MultiEDS: true, OldDS: 0.3, Overrides: 1.5}
 	profC13 = sim.Profile{Name: "c13", RSFaults: 0.15, EnvOrder: 0.5, Steps: 140, CanaryProb: 0.5, Hostile: 1, Churn: 0.7, Edits: 5, Holds: 0.5, Commands: 0.7, DupPods: 0.3, Affinity: -1, MaxNodes: 5, Converge: true}
